@@ -931,8 +931,18 @@ def delete_pointless_statements(source: str) -> str:
     """
     ast_tree = core.parse(source)
     safe_callables = parsing.safe_callable_names(ast_tree)
+    # What is tried may be there for the exception it raises, like data[i] under except IndexError
+    tried = {
+        statement
+        for try_node in core.walk(ast_tree, ast.Try)
+        if try_node.handlers
+        for child in try_node.body
+        for statement in core.walk(child, ast.stmt)
+    }
     for node in itertools.chain([ast_tree], parsing.iter_bodies_recursive(ast_tree)):
         for i, child in enumerate(node.body):
+            if child in tried:
+                continue
             if not core.has_side_effect(child, safe_callables):
                 if i > 0 or not _is_pointless_string(child):  # Docstring
                     yield child, None
